@@ -229,7 +229,16 @@ def root_synthesis(prog, chk):
             o = R.origin(irs, a, carriers={})
             if o[0] == "const" and "str" in o[1]:
                 lits.add(o[1]["str"])
-    chk.ob(X.SVG_NS in lits, "A16.ns-literal", "is_real_svg", irs.where(), "is_real_svg compares xmlns with the same namespace literal that write_root_svg inserts", f"is_real_svg compares with {sorted(lits)}")
+    lits = {x for x in lits if "/" in x or ":" in x}  # namespace names only (not the element name `svg`)
+    if not lits:
+        # compared with a named constant rather than a literal: look the constant up among the library's const items
+        for it in prog.items:
+            if it.get("item") == "const" and it.get("unit") == "svgdx-lib" and it.get("value") is not None and isinstance(it.get("value"), dict) and it["value"].get("str"):
+                lits.add(it["value"]["str"])
+    if not lits:
+        chk.anchor_missing("A16.ns-literal", "is_real_svg: the namespace it compares xmlns with could not be read (no string literal in an == comparison)")
+    else:
+        chk.ob(X.SVG_NS in lits, "A16.ns-literal", "is_real_svg", irs.where(), "is_real_svg compares xmlns with the same namespace literal that write_root_svg inserts", f"is_real_svg compares with {sorted(lits)}")
     # presence vs value: an author root with a *foreign* xmlns keeps it (F18)
     chk.bad(
         "A16.xmlns-presence-vs-value",
